@@ -26,8 +26,10 @@ fn with_prop(id: &str, f: &mut dyn FnMut(&dyn Runner) -> i32) -> i32 {
         "C11" => f(&props::c11::prop()),
         "C12" => f(&props::c12::prop()),
         "C15" => f(&props::c15::prop()),
+        "C16" => f(&props::c16::prop()),
         "C17" => f(&props::c17::C17),
         "C19" => f(&props::c19::C19),
+        "C20" => f(&props::c20::prop()),
         _ => {
             println!("unknown or unclaimed property {}", id);
             2
